@@ -198,3 +198,170 @@ class Sm2World:
 
 def find_log(world, kind):
     return [e for e in world.log if e[0] == kind]
+
+
+# ------------------------------------------------------------------------------------------ SM9 layer
+U256S = "u256"
+S_POINT = ("Point", [U256S, U256S, U256S])
+S_FP2 = ("Fp2", [U256S, U256S])
+S_TWIST = ("TwistPoint", [S_FP2, S_FP2, S_FP2])
+S_FP4 = ("Fp4", [S_FP2, S_FP2])
+S_FP12 = ("Fp12", [S_FP4, S_FP4, S_FP4])
+
+
+def shape_bits(sh):
+    return 256 if sh == U256S else sum(shape_bits(s) for s in sh[1])
+
+
+def flatten(dom, v, sh):
+    if sh == U256S:
+        return u256_term(dom, v)
+    parts = [flatten(dom, x, s) for x, s in zip(v.f, sh[1])]
+    # recognise a value cut from one term
+    return z3.Concat(*parts) if len(parts) > 1 else parts[0]
+
+
+def unflatten(t, sh):
+    if sh == U256S:
+        return u256_val(t)
+    out, hi = [], shape_bits(sh) - 1
+    for s in sh[1]:
+        w = shape_bits(s)
+        out.append(unflatten(z3.Extract(hi, hi - w + 1, t), s))
+        hi -= w
+    return Agg(out, name=sh[0])
+
+
+GT = z3.BitVecSort(3072)
+TW = z3.BitVecSort(1536)
+
+
+class Sm9World:
+    def __init__(self, dom, ctx):
+        self.dom, self.ctx = dom, ctx
+        self.log = []
+        self.draws = []
+        self.PAIR = uf("SM9_PAIRING", TW, PT, GT)
+        self.GPOW = uf("GT_POW", GT, B256, GT)
+        self.GMUL = uf("GT_MUL", GT, GT, GT)
+        self.GBYTES = uf("GT_BYTES", GT, GT)
+        self.PMUL = uf("G1_MUL", PT, B256, PT)
+        self.PADD = uf("G1_ADD", PT, PT, PT)
+        self.PXY = uf("G1_XY_BYTES", PT, z3.BitVecSort(512))
+        self.ONCURVE = uf("G1_ON_CURVE", PT, z3.BoolSort())
+        self.G1GEN = uf("G1_GEN_MUL", B256, PT)
+        self.G2GEN = uf("G2_GEN_MUL", B256, TW)
+        self.TADD = uf("G2_ADD_FULL", TW, TW, TW)
+        self.FROMB = uf("G1_FROM_XY_BYTES", z3.BitVecSort(512), PT)
+        self.NADD = uf("N_ADD", B256, B256, B256); self.NSUB = uf("N_SUB", B256, B256, B256)
+        self.NMUL = uf("N_MUL", B256, B256, B256); self.NINV = uf("N_INV", B256, B256)
+        self.h1_calls, self.h2_calls = [], []
+
+    def H1(self, id_terms, hid_term):
+        n = len(id_terms)
+        f = uf("SM9_H1_%d" % n, z3.BitVecSort(8 * n + 8), B256)
+        return f(z3.Concat(*(id_terms + [hid_term])))
+
+    def H2(self, data_terms, w_terms):
+        n = len(data_terms) + len(w_terms)
+        f = uf("SM9_H2_%d_%d" % (len(data_terms), len(w_terms)), z3.BitVecSort(8 * n), B256)
+        ts = data_terms + w_terms
+        return f(z3.Concat(*ts) if len(ts) > 1 else ts[0])
+
+    def summaries(self, h=None, extra=None):
+        W, dom = self, self.dom
+        pt = lambda ex, a: flatten(dom, ex.load(a) if isinstance(a, Ref) else a, S_POINT)
+        tw = lambda ex, a: flatten(dom, ex.load(a) if isinstance(a, Ref) else a, S_TWIST)
+        gt = lambda ex, a: flatten(dom, ex.load(a) if isinstance(a, Ref) else a, S_FP12)
+        def sc(ex, a):
+            if isinstance(a, Ref) and a.rng is not None:
+                vals = slice_vals(ex, a)
+            else:
+                v = ex.load(a) if isinstance(a, Ref) else a
+                vals = v.f
+            if len(vals) != 4:
+                raise Violation("scalar of %d limbs" % len(vals))
+            return u256_term(dom, Agg(list(vals)))
+        def lg(*e):
+            W.log.append(e)
+        def pairing(ex, argv):
+            q, p = tw(ex, argv[0]), pt(ex, argv[1]); r = W.PAIR(q, p); lg("pairing", q, p, r); return unflatten(r, S_FP12)
+        def gpow(ex, argv):
+            g, e = gt(ex, argv[0]), sc(ex, argv[1])
+            # the library asserts e < N-1 here; the property requires h = N-1 to be handled: obligation that no assert can fire
+            r = W.GPOW(g, e); lg("gt_pow", g, e, r); return unflatten(r, S_FP12)
+        def gmul(ex, argv):
+            a, b = gt(ex, argv[0]), gt(ex, argv[1]); r = W.GMUL(a, b); lg("gt_mul", a, b, r); return unflatten(r, S_FP12)
+        def gbytes(ex, argv):
+            a = gt(ex, argv[0]); r = W.GBYTES(a); lg("gt_bytes", a, r); return Agg(split_bytes(r, 384), name="Vec")
+        def pmul(ex, argv):
+            p, k = pt(ex, argv[0]), sc(ex, argv[1]); r = W.PMUL(p, k); lg("g1_mul", p, k, r); return unflatten(r, S_POINT)
+        def padd(ex, argv):
+            a, b = pt(ex, argv[0]), pt(ex, argv[1]); r = W.PADD(a, b); lg("g1_add", a, b, r); return unflatten(r, S_POINT)
+        def pbytes(ex, argv):
+            p = pt(ex, argv[0]); r = W.PXY(p); lg("g1_bytes", p, r); return Agg([Sc(4, "u8")] + split_bytes(r, 64), name="Vec")
+        def oncurve(ex, argv):
+            p = pt(ex, argv[0]); r = W.ONCURVE(p); lg("on_curve", p, r); return Sc(Sym(r), "bool")
+        def g1gen(ex, argv):
+            k = sc(ex, argv[0]); r = W.G1GEN(k); lg("g1_gen_mul", k, r); return unflatten(r, S_POINT)
+        def g2gen(ex, argv):
+            k = sc(ex, argv[0]); r = W.G2GEN(k); lg("g2_gen_mul", k, r); return unflatten(r, S_TWIST)
+        def tadd(ex, argv):
+            a, b = tw(ex, argv[0]), tw(ex, argv[1]); r = W.TADD(a, b); lg("g2_add", a, b, r); return unflatten(r, S_TWIST)
+        def fromb(ex, argv):
+            vals = slice_vals(ex, argv[0])
+            if len(vals) < 65:
+                ex.ctx.oblige("panic", False, "Point::from_bytes on %d bytes (slices b[1..33], b[33..65])" % len(vals), "Point::from_bytes")
+                raise Infeasible()
+            t = bytes_term(dom, vals[1:65]); r = W.FROMB(t); lg("from_bytes", t, r); return unflatten(r, S_POINT)
+        def rng(ex, argv):
+            t = z3.BitVec("sm9_rng_%d" % len(W.draws), 256)
+            if len(W.draws) >= getattr(W, "max_draws", 2):
+                raise Infeasible()
+            W.draws.append(t)
+            return u256_val(t)
+        def h1(ex, argv):
+            vals = [dom.term(v) for v in slice_vals(ex, argv[0])]
+            hid = dom.term(argv[1]) if isinstance(argv[1], Sc) else argv[1]
+            r = W.H1(vals, hid); W.h1_calls.append((vals, hid, r)); return u256_val(r)
+        def h2(ex, argv):
+            d = [dom.term(v) for v in slice_vals(ex, argv[0])]; w = [dom.term(v) for v in slice_vals(ex, argv[1])]
+            r = W.H2(d, w); W.h2_calls.append((d, w, r)); return u256_val(r)
+        def bi(f, name):
+            def s(ex, argv):
+                a, b = sc(ex, argv[0]), sc(ex, argv[1]); r = f(a, b); lg(name, a, b, r); return u256_val(r)
+            return s
+        def ninv(ex, argv):
+            a = sc(ex, argv[0]); r = W.NINV(a); lg("n_inv", a, r); return u256_val(r)
+        def all_zero_vec(ex, argv):
+            vals = slice_vals(ex, argv[0]) if isinstance(argv[0], Ref) and argv[0].rng is not None else ex.load(argv[0]).f
+            n = len(vals)
+            if len(argv) > 1:
+                if not argv[1].conc():
+                    raise Unsupported("is_zero with symbolic length")
+                n = argv[1].v
+                if n > len(vals):
+                    ex.ctx.oblige("panic", False, "is_zero indexes %d bytes of a %d-byte key" % (n, len(vals)), "is_zero")
+                    raise Infeasible()
+            if n == 0:
+                return Sc(True, "bool")
+            return Sc(Sym(z3.And([dom.term(v) == 0 for v in vals[:n]])), "bool")
+        def cmp256(ex, argv):
+            a = z3.ZeroExt(1, sc(ex, argv[0])); b = z3.ZeroExt(1, sc(ex, argv[1]))
+            return Sc(Sym(z3.If(z3.UGT(a, b), z3.BitVecVal(1, 32), z3.If(z3.ULT(a, b), z3.BitVecVal(-1, 32), z3.BitVecVal(0, 32)))), "i32")
+        s = {"sm9_u256_pairing": pairing, "Fp12::pow": gpow, "<Fp12 as FieldElement>::fp_mul": gmul, "<Fp12 as FieldElement>::to_bytes_be": gbytes,
+             "Point::point_mul": pmul, "Point::point_add": padd, "Point::to_bytes_be": pbytes, "Point::is_on_curve": oncurve, "Point::g_mul": g1gen,
+             "TwistPoint::g_mul": g2gen, "twist_point_add_full": tadd, "Point::from_bytes": fromb, "sm9_random_u256": rng,
+             "sm9_u256_hash1": h1, "sm9_u256_hash2": h2, "mod_n_add": bi(W.NADD, "n_add"), "mod_n_sub": bi(W.NSUB, "n_sub"), "mod_n_mul": bi(W.NMUL, "n_mul"),
+             "mod_n_inv": ninv, "u256_cmp": cmp256,
+             "Sm9EncMasterKey::encrypt::is_zero": all_zero_vec, "Sm9EncKey::decrypt::is_zero": all_zero_vec,
+             "exch_step_1b::is_zero": all_zero_vec, "exch_step_2a::is_zero": all_zero_vec}
+        if h is not None:
+            s["sm3_hash"] = h.summary()
+        if extra:
+            s.update(extra)
+        return s
+
+
+def sym_shape(name, sh):
+    return unflatten(z3.BitVec(name, shape_bits(sh)), sh)
